@@ -190,6 +190,19 @@ CLAIMED["C14"] = (
     "is input-balanced or rule-based; families completed with a redox reagent template are compared on the verdict only.",
     "5/C14", "")
 
+CLAIMED["C20"] = (
+    "TLA+ model of the standardiser as a rewriting loop (Standardize.tla) checked exhaustively by TLC; real "
+    "MoleculeStandardizer calls (and a second application to every output) validated by TLC (Standardize_Trace.tla)",
+    "TLC checks on every mix of rewritable and non-rewritable groups that the re-querying loop with a result check never "
+    "produces an error string, conserves the atoms and reaches a fixed point (second application = first); the stale "
+    "work list without result check must fail. The real class is run on enols in many atom orders, enolates and other "
+    "charged oxygen species, gem-diols / hemiketals / hemiacetals / orthoacids, metal alkoxides, molecules and mixtures "
+    "with several groups, group-free molecules and corpus molecules, each also respelled with random atom orders; the "
+    "oracle supplies composition, charge and identity of input, output and second output and TLC evaluates: returns a "
+    "parsable SMILES (no exception), same elements incl. H and same charge, second application returns the same "
+    "molecules.",
+    "5/C20", "")
+
 PENDING_REASON = "check not built yet in this round (planned, see DESIGN.md section 5); not claimed until it passes on the unchanged tree"
 
 
